@@ -25,8 +25,9 @@ struct http_response;
 struct netbuf_read {
 	uint8_t * buf;			/* Current read buffer (object of exactly buflen bytes). */
 	size_t buflen;			/* Length of buf. */
-	size_t bufpos;			/* Position of read pointer in buf. */
 	size_t datalen;			/* Position of write pointer in buf. */
+	/* fields a response-parsing step may change: contiguous, so that they are ONE assigns target */
+	size_t bufpos;			/* Position of read pointer in buf. */
 	int waiting;			/* ghost: read_cookie != NULL || immediate_cookie != NULL */
 	int (* wait_cb)(void *, int);	/* callback of the registered wait */
 	void * wait_cookie;
@@ -40,8 +41,10 @@ struct netbuf_write {
 };
 
 /*
- * ghost observation state (defined in models/http_env.c).  One struct, so that it is ONE object for cbmc: DFCC's
- * write-set bookkeeping is proportional to 2^object-bits, and 30 separate globals push the groups over 256 objects.
+ * ghost observation state (defined in models/http_env.c).  One struct, so that it is ONE object and ONE assigns target:
+ * DFCC checks every assignment against every target of the assigns clause and its bookkeeping is proportional to
+ * 2^object-bits (30 separate globals push the groups over 256 objects).  A contract that replaces a call therefore
+ * havocs the whole struct and must say which fields keep their value.
  */
 struct http_ghost {
 	unsigned ncb;			/* invocations of the user's callback */
@@ -51,7 +54,6 @@ struct http_ghost {
 	size_t cb_bodylen;
 	uint8_t * cb_body;
 	void * cb_cookie;
-	int cb_rv;			/* what the user's callback returns (chosen by the harness) */
 	unsigned ncancel;		/* http_request_cancel calls (ghost statement in http.c) */
 	unsigned ndie;			/* die() calls (ghost statement in http.c) */
 	int envfail;			/* an environment call reported (allocation) failure: wait, write, init, connect */
@@ -63,11 +65,16 @@ struct http_ghost {
 	unsigned nwrite;		/* netbuf_write_write calls and their arguments, in order */
 	const uint8_t * wbuf[2];
 	size_t wlen[2];
-	size_t i, j;			/* ghost indices (G1) */
 	size_t fe_i, fe_j;		/* findeol's ghost positions (set by callers through ghost statements) */
-	size_t eol;			/* ghost witness: position of an EOL (sgetline's requires) */
 };
 extern struct http_ghost g_http;
+/* ghost INPUTS, chosen by the harness and never assigned by http.c or the models */
+struct http_ghost_in {
+	int cb_rv;			/* what the user's callback returns */
+	size_t i, j;			/* ghost indices (G1) */
+	size_t eol;			/* ghost witness: position of an EOL (sgetline's requires) */
+};
+extern struct http_ghost_in g_http_in;
 #define g_http_ncb g_http.ncb
 #define g_http_cb_null g_http.cb_null
 #define g_http_cb_status g_http.cb_status
@@ -75,7 +82,7 @@ extern struct http_ghost g_http;
 #define g_http_cb_bodylen g_http.cb_bodylen
 #define g_http_cb_body g_http.cb_body
 #define g_http_cb_cookie g_http.cb_cookie
-#define g_http_cb_rv g_http.cb_rv
+#define g_http_cb_rv g_http_in.cb_rv
 #define g_http_ncancel g_http.ncancel
 #define g_http_ndie g_http.ndie
 #define g_http_envfail g_http.envfail
@@ -89,11 +96,11 @@ extern struct http_ghost g_http;
 #define g_http_nwrite g_http.nwrite
 #define g_http_wbuf g_http.wbuf
 #define g_http_wlen g_http.wlen
-#define g_http_i g_http.i
-#define g_http_j g_http.j
+#define g_http_i g_http_in.i
+#define g_http_j g_http_in.j
 #define g_http_fe_i g_http.fe_i
 #define g_http_fe_j g_http.fe_j
-#define g_http_eol g_http.eol
+#define g_http_eol g_http_in.eol
 
 int http_cb_stub(void *, struct http_response *);
 
